@@ -340,6 +340,10 @@ def op_line(module, scn, op):
         return "EC %d %s %d" % (op["slot"], op["syn"], op["failat"])
     if a == "EncodeBuf":
         return "EB %d %s %s" % (op["slot"], op["syn"], op["rel"])
+    if a == "AllocSweepEnc":
+        return "AS enc %d %s" % (op["slot"], op["syn"])
+    if a == "AllocSweepDec":
+        return "AS dec %s X%s" % (op["syn"], bytes(op["bytes"]).hex())
     if a == "EncodeCbSweep":
         return "ECS %d %s %s" % (op["slot"], op["syn"], op["mode"])
     raise Infra("no driver command for op " + a)
